@@ -14,6 +14,7 @@ import (
 	"sort"
 	"strings"
 	"sync"
+	"sync/atomic"
 	"time"
 
 	"github.com/aml-org/amf-custom-validator/pkg"
@@ -624,13 +625,15 @@ func implHist(h caseHead, raw []byte) map[string]any {
 	var hh histHead
 	json.Unmarshal(raw, &hh)
 	res := map[string]any{}
-	// one history in three compiles its profile while the process is compiling OTHER profiles (a server preparing the profiles of
+	// two histories in three compile their profile while the process is translating and compiling OTHER profiles (a server preparing the profiles of
 	// several tenants): what a compiled profile means is settled by its text alone
 	var stopBusy chan bool
 	var busyDone sync.WaitGroup
-	if h.Id%3 == 1 {
+	var busyIters int64
+	var alsoCompiled []*regoPrepared
+	if h.Id%3 != 0 {
 		stopBusy = make(chan bool)
-		for w := 0; w < 3; w++ {
+		for w := 0; w < 5; w++ {
 			busyDone.Add(1)
 			go func(w int) {
 				defer busyDone.Done()
@@ -641,18 +644,38 @@ func implHist(h caseHead, raw []byte) map[string]any {
 						return
 					default:
 					}
-					if w == 0 {
+					if w == 0 && k%8 == 0 {
 						pkg.CompileProfile(interferers[k%len(interferers)], false, nil)
 					} else {
 						// (what `acv generate` does: translation only, so these come round far more often than a whole compilation)
 						verifhook.GenerateRego(interferers[k%len(interferers)], nil)
 					}
+					atomic.AddInt64(&busyIters, 1)
 				}
 			}(w)
 		}
-		time.Sleep(2 * time.Millisecond)
+		// wait until the others are really at it (on a loaded machine they may not have been scheduled yet)
+		for t := 0; t < 3000 && atomic.LoadInt64(&busyIters) < 15; t++ {
+			time.Sleep(time.Millisecond)
+		}
 	}
 	compiled, err := compileQuiet(h.Profile)
+	if stopBusy != nil {
+		// the translation of the profile is a short part of its compilation: compile again (each result is used below for one
+		// document more) while the others did not get to run meanwhile
+		for try := 0; try < 6 && err == nil; try++ {
+			before := atomic.LoadInt64(&busyIters)
+			c2, err2 := compileQuiet(h.Profile)
+			if err2 != nil {
+				compiled, err = c2, err2
+				break
+			}
+			alsoCompiled = append(alsoCompiled, c2)
+			if atomic.LoadInt64(&busyIters)-before >= 40 && try >= 2 {
+				break
+			}
+		}
+	}
 	if stopBusy != nil {
 		close(stopBusy)
 		waited := make(chan bool, 1)
@@ -732,7 +755,12 @@ func implHist(h caseHead, raw []byte) map[string]any {
 			}(workerCh)
 		}
 		k1, r1 := one(func() (string, error) {
-			return pkg.ValidateCompiledWithConfiguration(compiled, doc, dbg(h.Profile, doc), evCh, fixedClock{}, rc)
+			// (a profile compiled several times under load: each compilation serves its share of the documents)
+			use := compiled
+			if len(alsoCompiled) > 0 && k%(len(alsoCompiled)+1) > 0 {
+				use = alsoCompiled[k%(len(alsoCompiled)+1)-1]
+			}
+			return pkg.ValidateCompiledWithConfiguration(use, doc, dbg(h.Profile, doc), evCh, fixedClock{}, rc)
 		})
 		chanClosed, nEvents := any(nil), any(nil)
 		if evCh != nil {
